@@ -14,7 +14,8 @@ Fld(n, a, t, d) == [name |-> n, alias |-> a, t |-> t, def |-> d, flat |-> FALSE]
 Prm(n, t, d)    == [name |-> n, t |-> t, def |-> d, eh |-> "unset", pos |-> "first"]
 E == TEnum("Color")
 
-M0 == [enums |-> [Color |-> {"RED", "GREEN"}],
+\* CRIMSON is an ALIAS member of Color (same value as RED): one more name, no new member
+M0 == [enums |-> [Color |-> {"RED", "GREEN", "CRIMSON"}], ealias |-> [CRIMSON |-> "RED"],
        evalues |-> [RED |-> "r", GREEN |-> "g"],
        ct |-> [
   Leaf   |-> [kind |-> "object", bases |-> <<>>, resolvers |-> <<>>,
@@ -131,7 +132,7 @@ Params ==
   { [p |-> Prm("arg_one", TOpt(TCInt), DfNull), ds |-> Ints] } \cup
   { [p |-> Prm("arg_one", TStr, d), ds |-> {DStr("a"), DInt(1)}] : d \in {Req, DfVal(DStr("dflt"))} } \cup
   { [p |-> Prm("arg_one", TOpt(TStr), DfVal(DStr("t"))), ds |-> {DStr("a")}] } \cup
-  { [p |-> Prm("arg_one", E, d), ds |-> {EName("RED"), EName("BLUE"), DStr("r")}] : d \in {Req, DfVal(VEnum("Color", "GREEN"))} } \cup
+  { [p |-> Prm("arg_one", E, d), ds |-> {EName("RED"), EName("BLUE"), DStr("r"), EName("CRIMSON")}] : d \in {Req, DfVal(VEnum("Color", "GREEN"))} } \cup
   { [p |-> Prm("arg_one", TOpt(E), DfNull), ds |-> {EName("GREEN")}] } \cup
   { [p |-> Prm("arg_one", TList(E), Req), ds |-> {DArr(<<EName("GREEN"), EName("RED")>>)}] } \cup
   { [p |-> Prm("arg_one", TLit, Req), ds |-> {EName("x"), EName("z")}] } \cup
@@ -152,7 +153,7 @@ Params ==
              DObj(<< <<"n", DInt(1)>>, <<"the_s", DNull>>, <<"u", DNull>>, <<"rq", DArr(<<DStr("r")>>)>> >>),
              DObj(<< <<"n", DInt(1)>>, <<"opt_s", DStr("python name")>>, <<"rq", DArr(<<DStr("r")>>)>> >>)}] } \cup
   { [p |-> Prm("arg_one", TOpt(TObj("LeafIn")), DfNull), ds |-> {DObj(<< <<"n", DInt(1)>>, <<"rq", DArr(<<>>)>> >>)}] } \cup
-  { [p |-> Prm("arg_one", TObj("EnumIn"), Req), ds |-> {DObj(<<>>), DObj(<< <<"col", EName("RED")>> >>)}] }
+  { [p |-> Prm("arg_one", TObj("EnumIn"), Req), ds |-> {DObj(<<>>), DObj(<< <<"col", EName("RED")>> >>), DObj(<< <<"col", EName("CRIMSON")>> >>)}] }
 
 \* the parameters whose data can pass GraphQL's own coercion and still be rejected by apischema, under an error_handler
 EhParams == {[q EXCEPT !.p = [q.p EXCEPT !.eh = h]] : q \in {x \in Params : x.p.t \in {TCInt, TOpt(TCInt), TList(TCInt), TObj("LeafIn")}},
